@@ -60,7 +60,15 @@ def random_ep(rng, v6=None, sport=443, odd=0.3):
     cport = rng.choice([1, 1024, 65535, rng.randrange(1, 65536), rng.randrange(32768, 61000)])
     while cport == sport or cport in (443, 44330):
         cport = rng.randrange(1024, 65536)
-    return Endpoints(cm, sm, ci, si, cport, sport, rng.randrange(0, 1 << 32), rng.randrange(0, 1 << 32))
+    cisn = rng.choice([0, 1, (1 << 32) - 1, (1 << 31), rng.randrange(0, 1 << 32), rng.randrange(0, 1 << 32)])
+    r = rng.random()
+    if r < 0.6:
+        sisn = rng.randrange(0, 1 << 32)
+    elif r < 0.7:
+        sisn = cisn                                             # equal initial sequence numbers
+    else:                                                       # half the sequence space apart, give or take a stream length
+        sisn = (cisn + (1 << 31) + rng.choice([-1, 1]) * rng.choice([0, 1, 2, 100, 700, 3000, 20000, rng.randrange(0, 70000)])) % (1 << 32)
+    return Endpoints(cm, sm, ci, si, cport, sport, cisn, sisn)
 
 
 @dataclass
@@ -234,7 +242,7 @@ def add_duplicates(segs, rng, n):
             break
         i = rng.choice(idx)
         s = out[i]
-        j = rng.randrange(i + 1, min(len(out), i + 6) + 1)
+        j = rng.randrange(i + 1, min(len(out), i + 6) + 1) if rng.random() < 0.6 else rng.randrange(i + 1, len(out) + 1)
         out.insert(j, Seg(s.dir, s.seq, s.ack, s.flags, s.payload, s.woff, s.burst, True))
     return out
 
@@ -260,4 +268,91 @@ def displace(segs, rng, n, maxdist=3, allow_first=True):
         j = rng.randrange(i + 1, jmax + 1)
         s = out.pop(i)
         out.insert(j, s)
+    return out
+
+
+def app_phase_bursts(events):
+    """indices of the bursts that consist of application-phase records only (application data, TLS 1.3 tickets):
+    their order relative to the other direction is not constrained by the handshake"""
+    out = []
+    bi = -1
+    last = None
+    kinds = {}
+    for e in events:
+        if e.dir != last:
+            bi += 1
+            last = e.dir
+            kinds[bi] = set()
+        kinds[bi].add(e.kind)
+    seen_app = False
+    for b in sorted(kinds):
+        if "app" in kinds[b]:
+            seen_app = True
+        if seen_app and kinds[b] <= {"app", "ehs"}:       # a burst with the final alert stays last: data after an alert is not claimed
+            out.append(b)
+    return out
+
+
+def interleave_app(segs, events, rng):
+    """full-duplex delivery: segments of neighbouring application-phase bursts of opposite directions are merged by an order-preserving
+    random merge (each direction keeps its own order); ack numbers are recomputed from what has been captured so far"""
+    ok = set(app_phase_bursts(events))
+    out = []
+    i = 0
+    segs = list(segs)
+    while i < len(segs):
+        s = segs[i]
+        if s.burst in ok and s.payload:
+            # collect a run of consecutive app-phase bursts
+            j = i
+            run = []
+            while j < len(segs) and segs[j].burst in ok and segs[j].payload and not segs[j].dup:
+                run.append(segs[j])
+                j += 1
+            a = [x for x in run if x.dir == "c"]
+            b = [x for x in run if x.dir == "s"]
+            merged = []
+            while a or b:
+                pick = a if (a and (not b or rng.random() < len(a) / (len(a) + len(b)))) else b
+                merged.append(pick.pop(0))
+            out += merged
+            i = j if j > i else i + 1
+            if j == i:
+                out.append(s)
+        else:
+            out.append(s)
+            i += 1
+    # recompute acknowledgement numbers: highest contiguous byte of the peer captured so far
+    nxt = {}
+    for s in out:
+        o = "s" if s.dir == "c" else "c"
+        if s.payload or s.flags & 0x02:
+            end = (s.seq + len(s.payload) + (1 if s.flags & 0x02 else 0)) & 0xFFFFFFFF
+            if s.dir not in nxt or ((end - nxt[s.dir]) & 0xFFFFFFFF) < 0x80000000:
+                nxt[s.dir] = end
+        if o in nxt and s.flags & 0x10:
+            s.ack = nxt[o]
+    return out
+
+
+def add_repacketized(segs, rng, n=1):
+    """TCP repacketization: a retransmission that starts at the sequence number of an already captured segment but carries that segment's
+    payload plus the following one(s) of the same burst (legal TCP; exact duplicates are add_duplicates' business)"""
+    out = list(segs)
+    for _ in range(n):
+        cand = [i for i in range(len(out) - 1) if out[i].payload and not out[i].dup and out[i + 1].payload and out[i + 1].dir == out[i].dir
+                and out[i + 1].burst == out[i].burst and out[i + 1].woff == out[i].woff + len(out[i].payload) and len(out[i].payload) + len(out[i + 1].payload) < 60000]
+        if not cand:
+            break
+        i = rng.choice(cand)
+        a, b = out[i], out[i + 1]
+        k = rng.choice([1, 1, 2])
+        payload = a.payload + b.payload
+        last = i + 1
+        if k == 2 and i + 2 < len(out) and out[i + 2].payload and out[i + 2].dir == a.dir and out[i + 2].burst == a.burst and out[i + 2].woff == b.woff + len(b.payload):
+            payload += out[i + 2].payload
+            last = i + 2
+        # a retransmission may arrive right away or much later (after the retransmission timer), when the records were long complete
+        j = rng.randrange(last + 1, min(len(out), last + 4) + 1) if rng.random() < 0.4 else rng.randrange(last + 1, len(out) + 1)
+        out.insert(j, Seg(a.dir, a.seq, a.ack, a.flags, payload, a.woff, a.burst, True))
     return out
